@@ -1,6 +1,7 @@
 package main
 
 import (
+	"math/big"
 	"reflect"
 	"fmt"
 	"go/token"
@@ -592,6 +593,15 @@ func harnessIntrinsic(short string) intrinsicFn {
 	case "vTime":
 		// vTime(ns): a time.Time at ns nanoseconds of the model clock (0 = the zero Time)
 		return func(x *Exec, _ *ssa.Function, a []Value) Value { return x.mkTime(a[0].(*Term)) }
+	case "vTimeSec":
+		// vTimeSec(sec, nsec): a time.Time at sec*1e9+nsec nanoseconds of the model clock; may lie beyond 2^63 ns
+		return func(x *Exec, _ *ssa.Function, a []Value) Value {
+			sec := a[0].(*Term)
+			if sec.IsConc() {
+				return x.mkTime(tAdd(mkBig(new(big.Int).Mul(big.NewInt(sec.C.(int64)), big.NewInt(1000000000))), a[1].(*Term)))
+			}
+			return x.mkTime(tAdd(app(SInt, "*", sec, mkInt(1000000000)), a[1].(*Term)))
+		}
 	case "vTimeNs":
 		return func(x *Exec, _ *ssa.Function, a []Value) Value { return timeNs(a[0]) }
 	case "vLastNow":
